@@ -1282,7 +1282,7 @@ func voteRandom(r *rand.Rand, n int, length int) (alpha []int, fund int64, next 
 func TestC17(t *testing.T) {
 	t0 := time.Now()
 	st := NewStats("C17")
-	st.Rule = "an evaluation is one invocation executed on the real contract and compared with the model; distinct_nontrivial counts the distinct tuples (length n of the stored Alphabet list, method, outcome class fire/vote/repeat/fault, size of the tally including this vote, gap class open/same-height/gap<20/gap20/expired since the last counted vote for that id) observed among well-formed invocations witnessed by a stored Alphabet key; rejected strangers, malformed arguments, candidate registration and funding are evaluations but not counted here"
+	st.Rule = "an evaluation is one invocation executed on the real contract and compared with the model; distinct_nontrivial counts the distinct tuples (length n of the stored Alphabet list, method, outcome class fire/vote/repeat/fault, size of the tally including this vote, gap class open/same-height/gap<20/gap20/expired since the last counted vote for that id) observed among well-formed invocations witnessed by a stored Alphabet key; rejected strangers, malformed arguments, candidate registration and funding are evaluations but not counted here; histories with a contract payee (excluded by the Coq model's premise) are compared with a Go reference of the spec instead, and contribute the distinct tuples (n, method, chain of outcome classes of the invocation and its nested invocations)"
 	thorough := Tier() == "thorough"
 
 	type caseFile struct {
@@ -1353,6 +1353,9 @@ func TestC17(t *testing.T) {
 		add(alpha, fund, next)
 	}
 	st.Extra["random"] = fmt.Sprintf("%d random histories of %d invocations, n = 1..7 round robin, two competing ids per method family, Alphabet replacement, candidates, gaps of 10/19/20/21 blocks, up to 4 transactions per block", nh, ln)
+
+	// 4. cheques to a contract payee that calls back into the contract (vote_reentry_test.go)
+	voteReentryAll(t, st, distinct, thorough)
 
 	st.Extra["fired_decisions"] = totalFired
 	st.Extra["fired_with_carried_over_or_repeated_votes_after_alphabet_change"] = totalCarry
